@@ -14,7 +14,7 @@ import pickle
 import time
 from collections import Counter
 
-from ..common import Run, rotate, run_pool
+from ..common import cap_findings, too_many, Run, rotate, run_pool
 from ..tensors import all_formats, fmt_str, parse_fmt, structure_from_coords
 
 
@@ -216,11 +216,11 @@ def work(unit):
                     if len(samples) < 1 and len(sub) >= 2 and tag == "reversed":
                         samples.append({**case, "observed": {k: (v if k != "items" else [list(map(list, [i[0]])) + [i[1]] for i in v])
                                                                for k, v in obs.items() if k in ("indices", "vals")}})
-                    if len(findings) > 30:
+                    if too_many(findings):
                         break
-                if len(findings) > 30:
+                if too_many(findings):
                     break
-            if len(findings) > 30:
+            if too_many(findings):
                 break
         # out-of-range coordinates: every component position x {-1, dim} x a stored in-range companion
         if order >= 1 and all(d >= 1 for d in dims):
@@ -255,7 +255,7 @@ def work(unit):
                                                f"(component lands in a {mode} level); read-back: {t.to_dok()}",
                                                {**case, "constructor": cname}, level_mode=mode,
                                                negative=badv < 0))
-    return {"stats": dict(stats), "findings": findings[:40], "samples": samples, "states": len(states),
+    return {"stats": dict(stats), "findings": cap_findings(findings), "samples": samples, "states": len(states),
             "transitions": transitions, "wall": time.time() - t0}
 
 
